@@ -22,10 +22,12 @@ CFG = {
     "theorems": [("C01.Props", [
         "C01_rb", "C01_avl", "C01_bt", "C01_tmap", "C01_tset", "C01_bidi_refines", "C01_bidi_bijection",
         "C01_spec_sorted", "C01_spec_last_value_put", "C01_spec_get_after_remove", "C01_spec_remove_absent",
-        "C01_spec_reput_present", "C01_int_comparator_laws"])],
+        "C01_spec_reput_present", "C01_int_comparator_laws", "C01_comparator_shapes_laws", "C01_comparator_shapes_separate"])],
     "trusted": [
         "comparator: theorems assume antisymmetry of sign, cmp a b = 0 <-> cmp b a = 0 and transitivity of <= 0 (premise CmpLaws, "
-        "proved for the built-in int comparator); the harness exercises Go int keys with IntComparator only",
+        "proved for every comparator shape of the correspondence run: C01_comparator_shapes_laws); the harness builds the real containers "
+        "(NewWith...) over Go int keys with IntComparator, a-b, b-a, (a-b)*7, (b-a)*1000003 and a-b clamped to [-3,3], on key universes "
+        "whose differences cross 127/128, 255/256, 32767/32768 and 2^31 (|keys| < 2^40: no int overflow); each case file names its shape",
         "Keys()/Values() are modelled as the in-order walk of the tree; the iterator that produces them (parent-pointer walking) is "
         "property C14's subject and is exercised here only through the recorded Keys/Values results",
     ],
